@@ -228,6 +228,56 @@ def insertSubWords : Nat → SV → Except LFault SV
        | none => generic)
     | _, _ => generic
 
+
+/-- `insertSubWords` with the generic arm evaluated only where it is taken (the compiled code
+evaluates a `let` eagerly, which doubles the work at every nested mask); equal to the definition
+above, and the compiler is told to use it. -/
+def insertSubWordsFast : Nat → SV → Except LFault SV
+  | 0, v => .ok v
+  | fuel + 1, .node k attrs ks _ =>
+    let generic : Unit → Except LFault SV := fun _ =>
+      match mapE (insertSubWordsFast fuel) ks with
+      | .ok ks' => .ok (rebuild k attrs ks')
+      | .error e => .error e
+    match k, ks with
+    | .and_, [left, right] =>
+      let pick : Option (SV × Nat × Nat) :=
+        match getRegion left with
+        | some (o, l) => some (right, o, l)
+        | none => (match getRegion right with
+          | some (o, l) => some (left, o, l)
+          | none => none)
+      (match pick with
+       | some (value, offset, length) =>
+         if value.kind == .knownData then generic ()
+         else
+           let (v1, shift) := getShift value
+           (match insertSubWordsFast fuel v1 with
+            | .error e => .error e
+            | .ok v2 =>
+              let v3 := match v2 with
+                | .node .subWord [io, isz] [iv] _ => if offset == io && length == isz then iv else v2
+                | _ => v2
+              if offset + shift ≥ usizeMax || offset + shift + length > 256 then generic ()
+              else .ok (rebuild .subWord [offset + shift, length] [v3]))
+       | none => generic ())
+    | _, _ => generic ()
+
+theorem insertSubWordsFast_eq : ∀ (fuel : Nat) (v : SV), insertSubWordsFast fuel v = insertSubWords fuel v := by
+  intro fuel
+  induction fuel with
+  | zero => intro v; cases v; rfl
+  | succ n ih =>
+    intro v
+    have hf : insertSubWordsFast n = insertSubWords n := funext ih
+    cases v with
+    | node k attrs ks sz =>
+      unfold insertSubWordsFast insertSubWords
+      simp only [hf]
+
+@[csimp] theorem insertSubWords_eq_fast : @insertSubWords = @insertSubWordsFast := by
+  funext fuel v; exact (insertSubWordsFast_eq fuel v).symm
+
 /-! ### 5. MulShiftedValue -/
 def insertMulShifts : Nat → SV → SV
   | 0, v => v
@@ -254,6 +304,49 @@ def insertMulShifts : Nat → SV → SV
           | none => generic)
        | none => generic)
     | _, _ => generic
+
+
+/-- lazy-arm variant of `insertMulShifts` (see `insertSubWordsFast`) -/
+def insertMulShiftsFast : Nat → SV → SV
+  | 0, v => v
+  | fuel + 1, .node k attrs ks _ =>
+    let generic : Unit → SV := fun _ => rebuild k attrs (ks.map (insertMulShiftsFast fuel))
+    match k, ks with
+    | .multiply, [left, right] =>
+      let lf := fold left
+      let rf := fold right
+      let pick : Option (Nat × SV) :=
+        match knownOf lf, rf.kind == .subWord with
+        | some c, true => some (c, insertMulShiftsFast fuel right)
+        | _, _ =>
+          match lf.kind == .subWord, knownOf rf with
+          | true, some c => some (c, insertMulShiftsFast fuel left)
+          | _, _ => none
+      (match pick with
+       | some (c, value) =>
+         (match whichPowerOf2 c with
+          | some off =>
+            (match value with
+             | .node .subWord [_, sz] _ _ => if off + sz > 256 then generic () else rebuild .shifted [off] [value]
+             | _ => rebuild .shifted [off] [value])
+          | none => generic ())
+       | none => generic ())
+    | _, _ => generic ()
+
+theorem insertMulShiftsFast_eq : ∀ (fuel : Nat) (v : SV), insertMulShiftsFast fuel v = insertMulShifts fuel v := by
+  intro fuel
+  induction fuel with
+  | zero => intro v; cases v; rfl
+  | succ n ih =>
+    intro v
+    have hf : insertMulShiftsFast n = insertMulShifts n := funext ih
+    cases v with
+    | node k attrs ks sz =>
+      unfold insertMulShiftsFast insertMulShifts
+      simp only [hf]
+
+@[csimp] theorem insertMulShifts_eq_fast : @insertMulShifts = @insertMulShiftsFast := by
+  funext fuel v; exact (insertMulShiftsFast_eq fuel v).symm
 
 /-! ### 6. PackedEncoding -/
 def unpickOrs : Nat → SV → List SV
@@ -338,6 +431,49 @@ def liftDynArray : Nat → SV → SV
             rebuild .dynamicArrayIndex [] [liftDynArray fuel d, liftDynArray fuel right]))
     | _, _ => generic
 
+
+/-- lazy-arm variant of `liftDynArray` (see `insertSubWordsFast`) -/
+def liftDynArrayFast : Nat → SV → SV
+  | 0, v => v
+  | fuel + 1, .node k attrs ks _ =>
+    let generic : Unit → SV := fun _ => rebuild k attrs (ks.map (liftDynArrayFast fuel))
+    match k, ks with
+    | .add, [left, right] =>
+      let dataOpt : Option SV :=
+        match left with
+        | .node .sha3 _ [d] _ => some d
+        | _ => (match right with
+          | .node .sha3 _ [d] _ => some d
+          | _ => none)
+      (match dataOpt with
+       | none => generic ()
+       | some data =>
+         let data' : Option SV :=
+           match data with
+           | .node .concat _ [one] _ => some (fold one)
+           | .node .concat _ _ _ => none
+           | d => some d
+         (match data' with
+          | none => generic ()
+          | some d =>
+            rebuild .dynamicArrayIndex [] [liftDynArrayFast fuel d, liftDynArrayFast fuel right]))
+    | _, _ => generic ()
+
+theorem liftDynArrayFast_eq : ∀ (fuel : Nat) (v : SV), liftDynArrayFast fuel v = liftDynArray fuel v := by
+  intro fuel
+  induction fuel with
+  | zero => intro v; cases v; rfl
+  | succ n ih =>
+    intro v
+    have hf : liftDynArrayFast n = liftDynArray n := funext ih
+    cases v with
+    | node k attrs ks sz =>
+      unfold liftDynArrayFast liftDynArray
+      simp only [hf]
+
+@[csimp] theorem liftDynArray_eq_fast : @liftDynArray = @liftDynArrayFast := by
+  funext fuel v; exact (liftDynArrayFast_eq fuel v).symm
+
 /-! ### 8. StorageSlots -/
 def insertStorageSlots : Nat → SV → SV
   | 0, v => v
@@ -371,6 +507,42 @@ def insertMappingOffset : Nat → SV → SV
          rebuild .mappingIndex [off + 1] [insertMappingOffset fuel slot, insertMappingOffset fuel key]
        | none => generic)
     | _, _ => generic
+
+
+/-- lazy-arm variant of `insertMappingOffset` (see `insertSubWordsFast`) -/
+def insertMappingOffsetFast : Nat → SV → SV
+  | 0, v => v
+  | fuel + 1, .node k attrs ks _ =>
+    let generic : Unit → SV := fun _ => rebuild k attrs (ks.map (insertMappingOffsetFast fuel))
+    match k, ks with
+    | .add, [left, right] =>
+      let pick : Option (SV × SV × Nat) :=
+        match left, right with
+        | .node .mappingIndex _ [slot, key] _, .node .knownData (w :: _) _ _ =>
+          if w < 2 ^ 32 then some (key, slot, w) else none
+        | .node .knownData (w :: _) _ _, .node .mappingIndex _ [slot, key] _ =>
+          if w < 2 ^ 32 then some (key, slot, w) else none
+        | _, _ => none
+      (match pick with
+       | some (key, slot, off) =>
+         rebuild .mappingIndex [off + 1] [insertMappingOffsetFast fuel slot, insertMappingOffsetFast fuel key]
+       | none => generic ())
+    | _, _ => generic ()
+
+theorem insertMappingOffsetFast_eq : ∀ (fuel : Nat) (v : SV), insertMappingOffsetFast fuel v = insertMappingOffset fuel v := by
+  intro fuel
+  induction fuel with
+  | zero => intro v; cases v; rfl
+  | succ n ih =>
+    intro v
+    have hf : insertMappingOffsetFast n = insertMappingOffset n := funext ih
+    cases v with
+    | node k attrs ks sz =>
+      unfold insertMappingOffsetFast insertMappingOffset
+      simp only [hf]
+
+@[csimp] theorem insertMappingOffset_eq_fast : @insertMappingOffset = @insertMappingOffsetFast := by
+  funext fuel v; exact (insertMappingOffsetFast_eq fuel v).symm
 
 /-! ### The pipeline of passes -/
 
